@@ -8,7 +8,7 @@
  "defines": ["VERIF_HALLOC", "NET_FIXCAP"],
  "allow_undefined": ["libcperciva_warn", "libcperciva_warnx"],
  "models": ["models/ev_poll.c", "models/ev_atexit.c", "models/ev_selectstats.c"],
- "timeout": 300,
+ "timeout": 600,
  "assumptions": ["object-size parameters: <= NS_Q descriptors in S, <= NF_Q initialised pollfd entries (for-all invariants expanded over these constants); the scan loop itself is closed by its loop contract",
                  "clearbit replaced by its contract (enforced in C04/net_clearbit)",
                  "capacities of S and fds fixed (events_network_get never reallocates)",
